@@ -418,6 +418,52 @@ def _o_univariate(dimspec, n, seed, stats, given=None):
     return None
 
 
+def build_conditional(dimspec):
+    import virocon
+    import virocon.distributions as vd
+    cls = getattr(vd, M.FAMS[dimspec["fam"]][0])
+    fixed = {"f_" + k: v[1] for k, v in dimspec["params"].items() if v[0] == "fix"}
+    deps = {k: virocon.DependenceFunction(M.dep_callable(v[1], v[2])) for k, v in dimspec["params"].items() if v[0] == "dep"}
+    return vd.ConditionalDistribution(cls(**fixed), deps)
+
+
+def _o_conditional_vector(dimspec, n, seed, givens, stats):
+    """ConditionalDistribution.draw_sample(n, given) with a VECTOR of conditioning values, integer-typed and float-typed:
+    shape (n, len(given)); the same values in either dtype give the same sample for the same seed; column k follows the
+    conditional cdf at given[k] (DKW); n = 1 is the call GlobalHierarchicalModel.draw_sample makes"""
+    cd = build_conditional(dimspec)
+    gi = np.array([int(g) for g in givens])
+    gf = np.array([float(int(g)) for g in givens])
+    L = len(gi)
+    name = "Conditional%s%r" % (dimspec["fam"], {k: v[1:] for k, v in dimspec["params"].items()})
+    out = {}
+    for label, g in (("float", gf), ("int", gi)):
+        a = np.asarray(cd.draw_sample(n, g, random_state=np.random.default_rng(seed)), dtype=float)
+        if a.shape != (n, L):
+            return ({"clause": "shape", "kind": "conditional-vector"},
+                    "%s.draw_sample(%d, np.array(%r)) has shape %r, expected %r" % (name, n, g.tolist(), a.shape, (n, L)))
+        out[label] = a
+        if n >= 200 and np.all(np.isfinite(a)):
+            eps = dkw(n, L)
+            for k in range(L):
+                x = a[:, k]
+                if dimspec["fam"] == "VM":
+                    mu = float(np.asarray(M.param_values(dimspec, float(gf[k]))["mu"]))
+                    x = mu + np.mod(x - mu + np.pi, 2 * np.pi) - np.pi
+                d = ks_uniform(M.dim_method(dimspec, "cdf", x, float(gf[k])))
+                stats["ks_over_eps_max_conditional_vector"] = max(stats.get("ks_over_eps_max_conditional_vector", 0.0), d / eps)
+                if d > FAR * eps:
+                    return ({"clause": "distribution", "kind": "conditional-vector", "given_dtype": label},
+                            "%s.draw_sample(%d, np.array(%r) [%s dtype], random_state=default_rng(%d)): column %d does not follow the conditional "
+                            "cdf given %r: KS distance %.4f, DKW band %.4f at 1e-12" % (name, n, g.tolist(), label, seed, k, g.tolist()[k], d, eps))
+    if not np.array_equal(out["float"], out["int"]) and not np.allclose(out["float"], out["int"], rtol=1e-9, atol=0, equal_nan=True):
+        r, k = [int(v) for v in np.argwhere(~np.isclose(out["float"], out["int"], rtol=1e-9, atol=0))[0]]
+        return ({"clause": "given-dtype", "kind": "conditional-vector"},
+                "%s.draw_sample(%d, given, random_state=default_rng(%d)): given = np.array(%r) (integers) gives %r at [%d, %d] but the same "
+                "values as floats give %r" % (name, n, seed, gi.tolist(), float(out["int"][r, k]), r, k, float(out["float"][r, k])))
+    return None
+
+
 def _safe(fn, desc):
     def wrapped(*a, **k):
         try:
@@ -433,6 +479,7 @@ o_redraw = _safe(_o_redraw, "model.draw_sample(n, random_state=Generator)")
 o_statistics = _safe(_o_statistics, "model.draw_sample(n, random_state=seed)")
 o_univariate = _safe(_o_univariate, "dist.draw_sample(n, random_state=seed)")
 o_twin = _safe(_o_twin, "model.draw_sample(n, random_state=seed)")
+o_conditional_vector = _safe(_o_conditional_vector, "ConditionalDistribution.draw_sample(n, given_vector, random_state=Generator)")
 
 
 def replay(ctx, rp):
@@ -446,6 +493,8 @@ def replay(ctx, rp):
         o = o_redraw(rp["spec"], rp["n"], rp["seed"])
     elif kind == "statistics":
         o = o_statistics(rp["spec"], rp["n"], mkseed(rp["seed"], rp.get("seed_type", "int")), stats)
+    elif kind == "conditional_vector":
+        o = o_conditional_vector(rp["dimspec"], rp["n"], rp["seed"], rp["givens"], stats)
     elif kind == "twin":
         o = o_twin(rp["spec"], rp["n"], rp["seed"], rp.get("seed_type", "int"))
     elif kind == "univariate":
@@ -649,6 +698,25 @@ def run(ctx):
             g = rng.uniform(0.3, 4.0)
             neval += 1
             report(o_univariate(dc, nbig, seed, stats, given=g), {"oracle": "univariate", "dimspec": dc, "n": nbig, "seed": seed, "given": g})
+    # direct ConditionalDistribution.draw_sample with vectors of conditioning values, integer- and float-typed
+    for fam in ALLFAMS:
+        for rep in range(ctx.n(2, 10)):
+            seed = rng.randrange(2 ** 31)
+            dc = M.rand_dim(rng, fam, 0, allow_const=(rep % 2 == 1))
+            givens = [rng.randrange(1, 6) for _ in range(rng.choice([1, 2, 4]))]
+            if rep == 0:
+                givens = [1, 2, 3, 4]
+            neval += 3
+            hit = False
+            for n in (1, 3, 20000):          # smallest failing n first
+                if report(o_conditional_vector(dc, n, seed, givens, stats),
+                          {"oracle": "conditional_vector", "dimspec": dc, "n": n, "seed": seed, "givens": givens}):
+                    hit = True
+                    break
+            if hit:
+                # restate on a single conditioning value if that fails as well
+                report(o_conditional_vector(dc, 20000, seed, givens[:1], stats),
+                       {"oracle": "conditional_vector", "dimspec": dc, "n": 20000, "seed": seed, "givens": givens[:1]})
     if not ctx.quick():
         for sp in specs[:2]:
             seed = rng.randrange(2 ** 31)
